@@ -87,6 +87,10 @@ class C04(Prop):
     ]
     COMPARE = {"ereset", "log", "step", "stepi", "stepj", "nrec"}
 
+    def exhaustive_cases(self, tier):
+        # thorough tier: every placement of two extra events around a three-point grid (see small_scope_episodes)
+        return es.small_scope_episodes() if tier == "thorough" else []
+
     def gen(self, rng, tier):
         case, grid, keys = es.gen_episode(rng, tier)
         if rng.random() < 0.25:
